@@ -147,6 +147,8 @@ def r2_part_discovery(rep, src):
         cands = ['%s.%s' % (part, e) for e in exts] + [part]
         base = [INFO, other, '_gpgorigin']
         scen = [((), 'DebError')] + [((c,), c) for c in cands] + [(pair, 'DebError') for pair in itertools.combinations(cands, 2)] + [(tuple(cands), 'DebError')]
+        # two members of the same name are two candidates as well (ar allows it; the second would silently win)
+        scen += [((c, c), 'DebError') for c in cands]
         for members, want in scen:
             n_cases += 1
             res = build(base + list(members))
@@ -161,6 +163,10 @@ def r2_part_discovery(rep, src):
     n_cases += 1
     if res != ('raise', 'DebError') and bad is None:
         bad = 'an archive without %s is not rejected with DebError (%r)' % (INFO, res)
+    res = build([INFO, CTRL + '.gz', DATA + '.gz', INFO])
+    n_cases += 1
+    if res != ('raise', 'DebError') and bad is None:
+        bad = 'an archive with two %s members is accepted (the format version is read from the second): more than one candidate for a part must be rejected' % INFO
     if bad:
         rep.fail('C07.R2', f.site, 'exactly one candidate per part', bad, where=f.where)
     else:
@@ -254,10 +260,13 @@ def r4_md5_scripts(rep, src):
     f = src.func(M + ':DebControl.md5sums')
     rep.saw_func(f)
     MD5 = symstr.atom('md5', r'[0-9a-f]{32}')
-    NAME = symstr.atom('file name', r'[^\s\x00](?:[^\n\r\x00]*[^\s\x00])?')      # may contain blanks inside
+    NAME0 = symstr.atom('file name', r'[^\s\x00](?:[^\n\r\x00]*[^\s\x00])?')      # may contain blanks inside
     for binary in (True, False):
         for eol in ('\n', '\r\n'):
-            for present in (True, False):
+            # a file name may also begin with a blank ("names containing spaces"): the separator after the digest is two characters
+            # wide (md5sum(1)), further blanks belong to the name
+            for present, lead in ((True, ''), (False, ''), (True, ' '), (True, '  ')):
+                NAME = (symstr.lift(lead) + NAME0) if lead else NAME0
                 lines = [MD5 + '  ' + NAME + eol]
                 heap = H.Heap(mod, hooks={'.has_file': lambda it, args, kw, present=present: present,
                                           '.get_file': lambda it, args, kw: it.h.alloc('File', {}, name='@md5file'),
@@ -266,7 +275,8 @@ def r4_md5_scripts(rep, src):
                 heap.symbolic_strings = True
                 heap.bytes_mode = binary
                 ctl = heap.alloc('DebControl', {}, name='@control')
-                what = 'md5sums(%s), line end %r, md5sums member %s' % ('binary' if binary else 'text', eol, 'present' if present else 'missing')
+                what = 'md5sums(%s), line end %r, md5sums member %s%s' % ('binary' if binary else 'text', eol, 'present' if present else 'missing',
+                                                                          ', file name starting with %d blank(s)' % len(lead) if lead else '')
                 try:
                     r = H.Interp(heap).call(H.Closure(f.node, {}, ctl, f.cls), [None if binary else 'utf-8', None])
                 except H.Raised as x:
@@ -282,8 +292,9 @@ def r4_md5_scripts(rep, src):
                 if ent is not None and len(ent) == 1 and isinstance(ent[0][0], SStr) and ent[0][0].same(NAME) and isinstance(ent[0][1], SStr) and ent[0][1].same(MD5):
                     rep.ok('C07.R4', f.site, what, '{file name: md5}')
                 else:
-                    rep.fail('C07.R4', f.site, what, 'the line "<md5>  <file name>%s" is mapped to %r instead of {file name: md5}: file names with blanks are cut, '
-                             'or more/less than the line end is stripped' % (eol.replace('\r', '\\r').replace('\n', '\\n'), ent), where=f.where)
+                    rep.fail('C07.R4', f.site, what, 'the line "<md5>  %s<file name>%s" is mapped to %r instead of {%r + file name: md5}: file names with blanks are cut%s, '
+                             'or more/less than the line end is stripped' % (lead, eol.replace('\r', '\\r').replace('\n', '\\n'), ent, lead,
+                                                                            ' (the blanks the name starts with are taken for part of the separator)' if lead else ''), where=f.where)
     s = src.func(M + ':DebControl.scripts')
     rep.saw_func(s)
     scripts = mod.consts.get('', {}).get('MAINT_SCRIPTS') or []
